@@ -5,7 +5,7 @@ from checks import r2_common as r2
 from checks import c17
 MANIFEST = dict(level="model_checking", design="4 (C02)",
     technique="TLA+ specs: Assignment.tla (all optimal gated assignments; exhaustive small matrices replayed into the real Hungarian engine) and TrackerTrace.tla (recorded runs of the real trackers with externally measured weights validated by TLC: gate, expiry, optimum by subset DP)",
-    text="(a) Engine: TLC enumerates every weight matrix up to 3x3 over a grid straddling the threshold (and simulates 8x8 with the DP optimum) together with the complete set of optimal gated assignments; each is fed in several stream orders to the real SortVoting and the outcome must be one of the optima, one winner per query, no track twice. (b) Tracker level: real Sort / BatchSort / VisualSort runs over random histories with approaching, crossing and occluding objects plus crafted contests in which the greedy choice is not optimal are recorded; before each call the harness measures, with the library's own public primitives, the integer weight of every (detection, stored track) pair (IoU x confidence >= threshold; inverted chi-square cost / confidence within reach in Mahalanobis mode); TLC validates every trace against TrackerTrace: a continued pair is live, present and >= threshold, an ungated detection starts a track, and the recorded continuation set has the maximum total value (unmatched = threshold) up to a stated margin. Every tracker kind is recorded at IoU thresholds 0.3 / 0.1 / 0.5 and, in Mahalanobis mode, with default, tight, loose and very loose Kalman weights (position weight 1: the chi-square gate reaches farther than the bounding circles, so the reach clause binds).",
+    text="(a) Engine: TLC enumerates every weight matrix up to 3x3 over a grid straddling the threshold (and simulates 8x8 with the DP optimum) together with the complete set of optimal gated assignments; each is fed in several stream orders to the real SortVoting and the outcome must be one of the optima, one winner per query, no track twice. (b) Tracker level: real Sort / BatchSort / VisualSort runs over random histories with approaching, crossing and occluding objects plus crafted contests in which the greedy choice is not optimal are recorded; before each call the harness measures, with the library's own public primitives, the integer weight of every (detection, stored track) pair (IoU x confidence >= threshold; in Mahalanobis mode the squared distance from the public Kalman filter API, gated and inverted by the constants of Gate.tla - 0.95 quantile of chi-square with 5 degrees of freedom, upper bound 100 - written out in the harness, divided by the confidence, within reach); TLC validates every trace against TrackerTrace: a continued pair is live, present and >= threshold, an ungated detection starts a track, and the recorded continuation set has the maximum total value (unmatched = threshold) up to a stated margin. Every tracker kind is recorded at IoU thresholds 0.3 / 0.1 / 0.5 and, in Mahalanobis mode, with default, tight, loose and very loose Kalman weights (position weight 1: the chi-square gate reaches farther than the bounding circles, so the reach clause binds).",
     note="Weights are measured outside the tracker with Universal2DBox::too_far / IoU / the public Kalman filter API (bound to the specification by C08 / C07). Mahalanobis weights are logged x1e4 and near-ties within the margin are accepted either way.")
 LEVEL = MANIFEST["level"]
 RULE = ("engine: TLC-enumerated matrices, non-trivial = greedy differs from every optimum or a weight within 10% of the threshold; "
